@@ -121,7 +121,7 @@ func getWorld(t evid.TB) *world {
 	return theWorld
 }
 
-// pump publishes k small video packets on both live streams.
+// pump publishes k small video and k small audio packets on both live streams.
 func (w *world) pump(k int) {
 	for i := 0; i < k; i++ {
 		n := atomic.AddUint32(&w.seq, 1)
@@ -129,6 +129,11 @@ func (w *world) pump(k int) {
 		pk := rtppack.Sequence([][]byte{nal}, true, 96, n*3000, uint16(n), 0xC12)[0].Marshal()
 		w.live.WriteRtpPacket(rtppack.ToIpchub(rtp.ChannelVideo, pk))
 		w.pub.WriteFrame(0, pk)
+		// and one AAC access unit on the audio track (a session may have set up audio only)
+		au := rtppack.AacHbr([][]byte{[]byte(fmt.Sprintf("C12AUDIO%08x", n))})
+		ak := rtppack.Sequence([][]byte{au}, true, 97, n*1024, uint16(n), 0xA12)[0].Marshal()
+		w.live.WriteRtpPacket(rtppack.ToIpchub(rtp.ChannelAudio, ak))
+		w.pub.WriteFrame(2, ak)
 	}
 }
 
@@ -154,6 +159,7 @@ type plan struct {
 	Steps       []step `json:"steps"`
 	End         string `json:"end"` // close | halfclose
 	CheckFrames bool   `json:"check_frames"`
+	WSPData     bool   `json:"wsp_data_channel,omitempty"` // wsp: also open the data channel
 }
 
 var muxKnown = map[string]bool{"OPTIONS": true, "DESCRIBE": true, "ANNOUNCE": true, "SETUP": true, "PLAY": true, "PAUSE": true,
@@ -201,12 +207,19 @@ func genPlan(t *rapid.T, transport string) *plan {
 		maxLen = 14
 	}
 	p := &plan{Transport: transport}
-	if transport == "ws" {
+	if transport != "tcp" {
 		p.WSPathSym = rapid.SampledFrom([]string{"live", "live", "mlive", "missing"}).Draw(t, "wsPath")
 	}
-	goal := rapid.SampledFrom([]string{"play", "play", "play", "record", "record", "none"}).Draw(t, "goal")
+	if transport == "wsp" {
+		p.WSPData = rapid.IntRange(0, 3).Draw(t, "dataChannel") > 0
+	}
+	goals := []string{"play", "play", "play", "record", "record", "none"}
+	if transport == "wsp" {
+		goals = []string{"play", "play", "play", "play", "record", "none"} // the endpoint is play-only
+	}
+	goal := rapid.SampledFrom(goals).Draw(t, "goal")
 	playPath := rapid.SampledFrom([]string{"live", "live", "mlive"}).Draw(t, "playPath")
-	if transport == "ws" && p.WSPathSym != "missing" {
+	if transport != "tcp" && p.WSPathSym != "missing" {
 		playPath = p.WSPathSym
 	}
 	// the happy path towards the goal, consumed step by step
@@ -383,19 +396,21 @@ func (w *world) runPlan(p *plan) (out outcome, rep *report, fail *failure, err e
 	}
 	pubPaths := []string{w.resolve("pub", pubN), w.resolve("pub2", pubN)}
 	wsPath := ""
-	if p.Transport == "ws" {
+	if p.Transport != "tcp" {
 		wsPath = w.resolve(p.WSPathSym, pubN)
 	}
 	m := newModel(wsPath)
+	m.WSP = p.Transport == "wsp"
 
 	// a case that failed half-way (e.g. while rapid shrinks) may still be closing: give the
 	// server a moment to get back to the idle world before the baseline is taken
 	srv.WaitFor(2*time.Second, func() bool {
-		return srv.RtspConns() == w.idleConns && srv.Consumers(pathLive) == 0 && srv.Consumers(pathMLive) == 0
+		return srv.RtspConns()+srv.WspConns() == w.idleConns && srv.Consumers(pathLive) == 0 && srv.Consumers(pathMLive) == 0
 	})
 	// baseline of everything the statement says is given back
 	base := map[string]int{pathLive: srv.Consumers(pathLive), pathMLive: srv.Consumers(pathMLive)}
-	conns0 := srv.RtspConns()
+	conns := func() int64 { return srv.RtspConns() + srv.WspConns() }
+	conns0 := conns()
 	streams0, _ := srv.Streams()
 	// session panics are counted against a process-wide baseline, so that one logged after a
 	// case's last look is still reported (by the next case)
@@ -406,16 +421,34 @@ func (w *world) runPlan(p *plan) (out outcome, rep *report, fail *failure, err e
 		return out, rep, nil, fmt.Errorf("machinery: a live stream vanished (live=%d mlive=%d)", base[pathLive], base[pathMLive])
 	}
 
-	var c *rtspc.Client
-	if p.Transport == "ws" {
+	var c link
+	var wl *wspLink
+	switch p.Transport {
+	case "ws":
 		c, err = rtspc.DialWS(w.s.WS(wsPath), ioBound, nil)
-	} else {
+	case "wsp":
+		wl, err = dialWSP(w.s.WS(wsPath), ioBound, p.WSPData)
+		c = wl
+	default:
 		c, err = rtspc.Dial(w.s.Addr(), ioBound)
 	}
 	if err != nil {
 		return out, rep, nil, fmt.Errorf("machinery: dial: %v", err)
 	}
 	defer c.Close()
+	// frames of a WSP session travel on its data channel: whatever is there before a
+	// PLAY succeeded was sent too early
+	dataFrames := func() *failure {
+		if wl == nil {
+			return nil
+		}
+		n, derr := wl.dataFrames()
+		if derr != nil {
+			return &failure{"framing", derr.Error()}
+		}
+		out.framesSeen = n
+		return nil
+	}
 
 	// two UDP sockets (RTP/RTCP of the video track; audio uses the next pair, unbound) to catch early media
 	var udp *net.UDPConn
@@ -458,6 +491,9 @@ func (w *world) runPlan(p *plan) (out outcome, rep *report, fail *failure, err e
 			want := base[lp]
 			if m.St == stPlaying && m.Path == lp {
 				want++
+			}
+			if m.Paused && m.Path == lp {
+				continue // D14: a paused session may keep its attachment
 			}
 			if !srv.WaitFor(releaseBound, func() bool { return srv.Consumers(lp) == want }) {
 				return bad("consumers", "%s: %s has %d consumers, the model (%s) says %d (baseline %d)", when, lp, srv.Consumers(lp), m, want, base[lp])
@@ -551,7 +587,12 @@ func (w *world) runPlan(p *plan) (out outcome, rep *report, fail *failure, err e
 			return out, rep, f, nil
 		}
 		var serr error
-		if p.Transport == "ws" {
+		if f := dataFrames(); f != nil {
+			return fin(f)
+		} else if out.framesSeen > 0 && !playOK {
+			return fin(bad("media-before-play", "step %d (%s): %d frames on the WSP data channel before any successful PLAY", i, ex.Req, out.framesSeen))
+		}
+		if p.Transport != "tcp" {
 			serr = c.Send(req)
 			if serr == nil && withProbe {
 				serr = c.Send(probe)
@@ -648,8 +689,8 @@ func (w *world) runPlan(p *plan) (out outcome, rep *report, fail *failure, err e
 			if f := checkResources(fmt.Sprintf("after TEARDOWN (step %d)", i)); f != nil {
 				return out, rep, f, nil
 			}
-			if !srv.WaitFor(releaseBound, func() bool { return srv.RtspConns() <= conns0+1 }) {
-				return out, rep, bad("conns", "after TEARDOWN: RtspConns=%d, baseline %d", srv.RtspConns(), conns0), nil
+			if !srv.WaitFor(releaseBound, func() bool { return conns() <= conns0+1 }) {
+				return out, rep, bad("conns", "after TEARDOWN: %d RTSP+WSP connections, baseline %d", conns(), conns0), nil
 			}
 			// is the connection still there? (either answer is fine)
 			pr := c.Build("OPTIONS", w.s.RTSP(pathLive), nil, nil)
@@ -684,7 +725,15 @@ func (w *world) runPlan(p *plan) (out outcome, rep *report, fail *failure, err e
 	}
 
 	// optional liveness evidence: media does arrive after a successful PLAY over TCP
-	if alive && p.CheckFrames && m.St == stPlaying && !m.hasSetup("udp") && !m.hasSetup("mcast") {
+	if f := dataFrames(); f != nil {
+		return out, rep, f, nil
+	} else if wl != nil && out.framesSeen > 0 && !playOK {
+		return out, rep, bad("media-before-play", "%d frames on the WSP data channel although no PLAY succeeded", out.framesSeen), nil
+	}
+	if alive && p.CheckFrames && wl != nil && wl.data != nil && m.St == stPlaying {
+		srv.WaitFor(2*time.Second, func() bool { w.pump(1); dataFrames(); return out.framesSeen > 0 })
+	}
+	if alive && p.CheckFrames && wl == nil && m.St == stPlaying && !m.hasSetup("udp") && !m.hasSetup("mcast") {
 		deadline := time.Now().Add(2 * time.Second)
 		for out.framesSeen == 0 && time.Now().Before(deadline) {
 			w.pump(1)
@@ -722,8 +771,8 @@ func (w *world) runPlan(p *plan) (out outcome, rep *report, fail *failure, err e
 	if f := checkResources("after the connection ended"); f != nil {
 		return out, rep, f, nil
 	}
-	if !srv.WaitFor(releaseBound, func() bool { return srv.RtspConns() == conns0 }) {
-		return out, rep, bad("conns", "after the connection ended: RtspConns=%d, before the case %d", srv.RtspConns(), conns0), nil
+	if !srv.WaitFor(releaseBound, func() bool { return conns() == conns0 }) {
+		return out, rep, bad("conns", "after the connection ended: %d RTSP+WSP connections, before the case %d", conns(), conns0), nil
 	}
 	if st, _ := srv.Streams(); st != streams0 {
 		return out, rep, bad("registry", "after the connection ended: %d streams registered, before the case %d", st, streams0), nil
@@ -820,9 +869,11 @@ func runRapid(t *testing.T, transport string, quick, thorough int) {
 	})
 }
 
-func TestSequencesTCP(t *testing.T) { runRapid(t, "tcp", 700, 6000) }
+func TestSequencesTCP(t *testing.T) { runRapid(t, "tcp", 1500, 16000) }
 
-func TestSequencesWS(t *testing.T) { runRapid(t, "ws", 300, 2500) }
+func TestSequencesWS(t *testing.T) { runRapid(t, "ws", 600, 6000) }
+
+func TestSequencesWSP(t *testing.T) { runRapid(t, "wsp", 500, 5000) }
 
 // TestReplayFile re-runs the plan of a saved violation without rapid.
 func TestReplayFile(t *testing.T) {
